@@ -94,11 +94,7 @@ func buildTagOk(ctx *build.Context, s string) (r bool) {
 		s = s[1:]
 	}
 	switch {
-	case contains(ctx.BuildTags, s):
-		r = true
-	case s == ctx.GOOS:
-		r = true
-	case s == ctx.GOARCH:
+	case matchTag(ctx, s):
 		r = true
 	case len(s) > 4 && s[:4] == "go1.":
 		if n, err := strconv.Atoi(s[4:]); err != nil {
@@ -183,19 +179,21 @@ func skipFile(ctx *build.Context, p string, skipTest bool) bool {
 	}
 	n := len(l)
 	if n >= 2 && knownOs[l[n-2]] && knownArch[l[n-1]] {
-		return !(matchOsArch(ctx, l[n-1]) && matchOsArch(ctx, l[n-2]))
+		return !(matchTag(ctx, l[n-1]) && matchTag(ctx, l[n-2]))
 	}
 	if n >= 1 && (knownOs[l[n-1]] || knownArch[l[n-1]]) {
-		return !matchOsArch(ctx, l[n-1])
+		return !matchTag(ctx, l[n-1])
 	}
 	return false
 }
 
-// matchOsArch returns true if an OS or architecture name found in a file name
-// is satisfied by the build context, as go/build matchTag does for such names.
-func matchOsArch(ctx *build.Context, name string) bool {
+// matchTag returns true if a word found in a build constraint or in a file name
+// is satisfied by the build context, as go/build matchTag does (release tags excepted).
+func matchTag(ctx *build.Context, name string) bool {
 	switch {
-	case name == ctx.GOOS || name == ctx.GOARCH:
+	case ctx.CgoEnabled && name == "cgo":
+		return true
+	case name == ctx.GOOS || name == ctx.GOARCH || name == ctx.Compiler:
 		return true
 	case ctx.GOOS == "android" && name == "linux":
 		return true
@@ -203,6 +201,11 @@ func matchOsArch(ctx *build.Context, name string) bool {
 		return true
 	case ctx.GOOS == "ios" && name == "darwin":
 		return true
+	case name == "unix" && unixOs[ctx.GOOS]:
+		return true
+	}
+	if name == "boringcrypto" {
+		name = "goexperiment.boringcrypto" // boringcrypto is an old name for goexperiment.boringcrypto
 	}
 	return contains(ctx.BuildTags, name)
 }
@@ -226,6 +229,22 @@ var knownOs = map[string]bool{
 	"wasip1":    true,
 	"windows":   true,
 	"zos":       true,
+}
+
+// unixOs is the list of GOOS values matched by the "unix" build tag, as in go/build.
+var unixOs = map[string]bool{
+	"aix":       true,
+	"android":   true,
+	"darwin":    true,
+	"dragonfly": true,
+	"freebsd":   true,
+	"hurd":      true,
+	"illumos":   true,
+	"ios":       true,
+	"linux":     true,
+	"netbsd":    true,
+	"openbsd":   true,
+	"solaris":   true,
 }
 
 var knownArch = map[string]bool{
